@@ -168,10 +168,14 @@ def placements(nslots, menu, maxk):
                 yield sl
 
 
-def layer_fault_choices(shape, maxf=1):
+def layer_fault_choices(shape, maxf=1, rich=False):
     lay, _, nie = SHAPES[shape]
     names = [n for n, _ in lay if n != nie]
     menu = [('setUp', 'ValueError'), ('tearDown', 'ValueError'), ('tearDown', 'NIE')]
+    if rich:
+        menu += [('setUp', 'Chained'), ('tearDown', 'Context'),
+                 ('setUp', 'BadStr'), ('tearDown', 'Group'),
+                 ('setUp', 'Skip'), ('tearDown', 'Chain3')]
     yield {}
     if maxf >= 1:
         for n in names:
